@@ -233,7 +233,7 @@ def r_hdr_io(ctx):
             ex = [e for e in p.events if e.kind == "exit"]
             obs.append(Ob("R-HDR-IO", f["path"], "a byte slice is refused only for being shorter than 127 bytes", d is not None,
                           "refusal justified by its length test" if d is not None else "an error exit that `len < 127` does not account for (a complete 127-byte header must parse)",
-                          ex[-1].loc() if ex else rel(f["loc"])))
+                          ex[-1].loc() if ex else rel(f["loc"]), only=("C09",)))
     for f in ws:
         fn = f["path"]
         fa = ctx.fa(f)
